@@ -13,13 +13,7 @@
      out = "." | S<status>:<stale> | T<status>:<stale>:<key> | N
      key = - | s<S>,d<D>,x<0|1>,P<name>=<e|v><val>+...,F<k>+...,I<indent>     (sorted) *)
 
-let rec string_of_coq (s : string0) : string =
-  match s with
-  | EmptyString -> ""
-  | String (Ascii (b0, b1, b2, b3, b4, b5, b6, b7), r) ->
-      let bit b k = if b then 1 lsl k else 0 in
-      let c = bit b0 0 + bit b1 1 + bit b2 2 + bit b3 3 + bit b4 4 + bit b5 5 + bit b6 6 + bit b7 7 in
-      String.make 1 (Char.chr c) ^ string_of_coq r
+let name_string (l : name) : string = String.concat "" (List.map (fun c -> String.make 1 (Char.chr (int_of_n c))) l)
 
 let class_name = function
   | CSecd -> "StylesheetExecutionContextDefault"
@@ -29,7 +23,7 @@ let class_name = function
   | CEngine -> "XSLTEngineImpl"
   | CTransformer -> "XalanTransformer"
 
-let mid_name (c, n) = class_name c ^ "::" ^ string_of_coq n
+let mid_name (c, n) = class_name c ^ "::" ^ name_string n
 
 let max_dirt = List.filter is_per_transformation member_ids
 
